@@ -32,7 +32,7 @@ type c20Event struct {
 	Hist    int         `json:"hist"`
 	ID      uint32      `json:"id,omitempty"`
 	Kind    string      `json:"kind,omitempty"`
-	Records [][][2]string `json:"records,omitempty"` // per record: (name, rendering) pairs
+	Records [][][3]string `json:"records,omitempty"` // per record: (name, rendering, kind) triples
 	TFields [][3]string `json:"tfields,omitempty"` // template: name, len, enterprise
 	Method  string      `json:"method,omitempty"`
 	URL     string      `json:"url,omitempty"`
@@ -85,51 +85,51 @@ func c20Str(r *rand.Rand) string {
 }
 
 // c20Value builds a value object for the element and the rendering a reader would expect.
-func c20Value(r *rand.Rand, ie *entities.InfoElement) (entities.InfoElementWithValue, string) {
+func c20Value(r *rand.Rand, ie *entities.InfoElement) (entities.InfoElementWithValue, string, string) {
 	switch ie.DataType {
 	case entities.Unsigned8:
 		v := uint8(r.IntN(256))
-		return entities.NewUnsigned8InfoElement(ie, v), fmt.Sprintf("%v", v)
+		return entities.NewUnsigned8InfoElement(ie, v), fmt.Sprintf("%v", v), "int"
 	case entities.Unsigned16:
 		v := uint16(r.IntN(65536))
-		return entities.NewUnsigned16InfoElement(ie, v), fmt.Sprintf("%v", v)
+		return entities.NewUnsigned16InfoElement(ie, v), fmt.Sprintf("%v", v), "int"
 	case entities.Unsigned32:
 		v := r.Uint32()
-		return entities.NewUnsigned32InfoElement(ie, v), fmt.Sprintf("%v", v)
+		return entities.NewUnsigned32InfoElement(ie, v), fmt.Sprintf("%v", v), "int"
 	case entities.Unsigned64:
 		v := r.Uint64()
-		return entities.NewUnsigned64InfoElement(ie, v), fmt.Sprintf("%v", v)
+		return entities.NewUnsigned64InfoElement(ie, v), fmt.Sprintf("%v", v), "int"
 	case entities.Signed32:
 		v := int32(r.Uint32())
-		return entities.NewSigned32InfoElement(ie, v), fmt.Sprintf("%v", v)
+		return entities.NewSigned32InfoElement(ie, v), fmt.Sprintf("%v", v), "int"
 	case entities.Float64:
 		v := float64(r.IntN(1000000)) / 1000
-		return entities.NewFloat64InfoElement(ie, v), fmt.Sprintf("%v", v)
+		return entities.NewFloat64InfoElement(ie, v), fmt.Sprintf("%v", v), "float"
 	case entities.Boolean:
 		v := r.IntN(2) == 0
-		return entities.NewBoolInfoElement(ie, v), fmt.Sprintf("%v", v)
+		return entities.NewBoolInfoElement(ie, v), fmt.Sprintf("%v", v), "bool"
 	case entities.DateTimeSeconds:
 		v := r.Uint32()
-		return entities.NewDateTimeSecondsInfoElement(ie, v), fmt.Sprintf("%v", v)
+		return entities.NewDateTimeSecondsInfoElement(ie, v), fmt.Sprintf("%v", v), "int"
 	case entities.DateTimeMilliseconds:
 		v := r.Uint64()
-		return entities.NewDateTimeMillisecondsInfoElement(ie, v), fmt.Sprintf("%v", v)
+		return entities.NewDateTimeMillisecondsInfoElement(ie, v), fmt.Sprintf("%v", v), "int"
 	case entities.MacAddress:
 		v := net.HardwareAddr(c20Bytes(r, 6))
-		return entities.NewMacAddressInfoElement(ie, v), fmt.Sprintf("%v", v)
+		return entities.NewMacAddressInfoElement(ie, v), fmt.Sprintf("%v", v), "mac"
 	case entities.Ipv4Address:
 		v := net.IP(c20Bytes(r, 4))
-		return entities.NewIPAddressInfoElement(ie, v), fmt.Sprintf("%v", v)
+		return entities.NewIPAddressInfoElement(ie, v), fmt.Sprintf("%v", v), "ip"
 	case entities.Ipv6Address:
 		v := net.IP(c20Bytes(r, 16))
-		return entities.NewIPAddressInfoElement(ie, v), fmt.Sprintf("%v", v)
+		return entities.NewIPAddressInfoElement(ie, v), fmt.Sprintf("%v", v), "ip"
 	case entities.String:
 		v := c20Str(r)
-		return entities.NewStringInfoElement(ie, v), v
+		return entities.NewStringInfoElement(ie, v), v, "str"
 	case entities.OctetArray:
 		v := c20Bytes(r, 1+r.IntN(12))
 		// the rendering field carries the raw bytes in hex; the checker accepts any usual rendering of them
-		return entities.NewOctetArrayInfoElement(ie, v), "octets:" + fmt.Sprintf("%x", v)
+		return entities.NewOctetArrayInfoElement(ie, v), "octets:" + fmt.Sprintf("%x", v), "octets"
 	}
 	panic("c20 driver: unsupported type for " + ie.Name)
 }
@@ -169,11 +169,19 @@ func c20Message(r *rand.Rand, id uint32, template bool) (*entities.Message, c20E
 		nrec := 1 + r.IntN(3)
 		for i := 0; i < nrec; i++ {
 			var el []entities.InfoElementWithValue
-			var pairs [][2]string
+			var pairs [][3]string
+			if i == 0 {
+				// the first field of the first record carries a unique marker: the entry of this message is
+				// recognised by a field VALUE (which the property guarantees is shown), not by the header
+				mie, _ := registry.GetInfoElement("appProtocolName", 56506)
+				mv := fmt.Sprintf("vfid-%d-%s", id, c20Str(r))
+				el = append(el, entities.NewStringInfoElement(mie, mv))
+				pairs = append(pairs, [3]string{mie.Name, mv, "str"})
+			}
 			for _, ie := range ies {
-				v, rendering := c20Value(r, ie)
+				v, rendering, kind := c20Value(r, ie)
 				el = append(el, v)
-				pairs = append(pairs, [2]string{ie.Name, rendering})
+				pairs = append(pairs, [3]string{ie.Name, rendering, kind})
 			}
 			set.AddRecordV2(el, 256)
 			ev.Records = append(ev.Records, pairs)
